@@ -268,10 +268,10 @@ def run(ctx, replay=None):
         # (A) argument validation / dispatch: every call of the full alphabet from the initial state
         big = ki.name in ("native", "xmld_ts")
         jobs.append(("val_cpu_" + ki.name, ki, 0,
-                     cfg_record(ki, ["main"], CPU_SET_OPS + CPU_GET_OPS, full_c, [S()], cpuflags, [0], [0], [1], [], True), Q(1.0 if big else 0.25, 1.0), 60, 2))
+                     cfg_record(ki, ["main"], CPU_SET_OPS + CPU_GET_OPS, full_c, [S()], cpuflags, [0], [0], [1], [], True), Q(1.0 if big else 0.5, 1.0), 60, 2))
         jobs.append(("val_mem_" + ki.name, ki, 0,
                      cfg_record(ki, ["main"], MEM_SET_OPS + MEM_GET_OPS, small_c, full_n, [0],
-                                Q(memflags_q, memflags_t), allpols, [0, 1], [], True), Q(0.3 if big else 0.12, 1.0), 60, 2))
+                                Q(memflags_q, memflags_t), allpols, [0, 1], [], True), Q(0.5 if big else 0.25, 1.0), 60, 2))
         if not ki.ts:
             continue
         # (B) CPU round trip: set / get / last location from every reachable (pair of) thread affinities
@@ -279,14 +279,14 @@ def run(ctx, replay=None):
         two = ki.name == "native" or (thorough and ki.name == "xmld_ts")
         jobs.append(("rt_cpu_" + ki.name, ki, 1 if two else 0,
                      cfg_record(ki, ["main", "helper"] if two else ["main"], CPU_SET_OPS + CPU_GET_OPS, ok_c, [S()],
-                                Q([0, 1, 2, 3, 4, 5, 6, 16], [0, 1, 2, 3, 4, 5, 6, 8, 10, 16]), [0], [0], [1], [], False), Q(0.1 if two else 0.5, 1.0), 80, 4 if two else 2))
+                                Q([0, 1, 2, 3, 4, 5, 6, 16], [0, 1, 2, 3, 4, 5, 6, 8, 10, 16]), [0], [0], [1], [], False), Q(0.2 if two else 0.5, 1.0), 80, 4 if two else 2))
         # (C) memory binding round trip through every reachable (thread policy, buffer policy)
         if thorough or ki.name in ("native", "synth_ts", "xmld_ts"):
             ok_n = [s for s in powerset([a for a in natoms if a <= 4]) if s] + [S(), S(1, 7)]
             ok_mc = [S(1), S(3), frozenset(ki.CS), S(1, 2), S(3, 4)]
             jobs.append(("rt_mem_" + ki.name, ki, 0,
                          cfg_record(ki, ["main"], MEM_SET_OPS + MEM_GET_OPS, Q(ok_mc[:3], ok_mc), ok_n, [0],
-                                    Q([0, 2, 32, 34, 36, 40, 33], [0, 2, 32, 34, 36, 40, 44, 33, 4]), [0, 1, 2, 3, 5, 4], [1], [], False), Q(0.1, 0.6), 80, 2))
+                                    Q([0, 2, 32, 34, 36, 40, 33], [0, 2, 32, 34, 36, 40, 44, 33, 4]), [0, 1, 2, 3, 5, 4], [1], [], False), Q(0.2, 0.6), 80, 2))
         # (D) hwloc_topology_load() (default components, x86 only) from every binding of the calling thread
         if ki.name == "native":
             for thr in (0, 1):
